@@ -33,3 +33,20 @@ func TestFinding44_HTMLBlockClosingLine(t *testing.T) {
 		t.Fatalf("got %q err=%v", buf.String(), err)
 	}
 }
+
+// row 70 — C20.R14: values that are falsy as template values
+func TestFinding70_FalsyDocumentValuesAreWritten(t *testing.T) {
+	for src, want := range map[string]string{
+		"0. zero\n1. one\n":            `<ol start="0">`,
+		"```false\nx\n```\n":           `class="language-false"`,
+		"[x](false) [y]()\n":           `<a href="false">x</a>`,
+		"![](a.png) ![false](b.png)\n": `alt="false"`,
+		"[y]()\n":                      `<a href="">y</a>`,
+		"![](a.png)\n":                 `alt=""`,
+	} {
+		var buf bytes.Buffer
+		if err := markdown.New(fstest.MapFS{}).RenderBytes(&buf, []byte(src)); err != nil || !strings.Contains(buf.String(), want) {
+			t.Errorf("%q: got %q err=%v, want %s in it", src, buf.String(), err, want)
+		}
+	}
+}
